@@ -81,7 +81,7 @@ func ruleP18Sgr(p *Prog, r *Report) {
 	if r.anchorFn(rule, strip0, "StripAllAnsiSequences") {
 		ok := false
 		for _, ret := range returnsOf(strip0) {
-			if n, recv, args, _ := methodCall(ret.Results[0]); n == "ReplaceAllString" && len(args) == 2 {
+			if n, recv, args, _ := methodCall(retResult(ret, 0)); n == "ReplaceAllString" && len(args) == 2 {
 				if u, isU := strip(recv).(*ssa.UnOp); isU && u.X == ssa.Value(g) {
 					if s, isS := constString(args[1]); isS && s == "" && strip(args[0]) == ssa.Value(strip0.Params[0]) {
 						ok = true
@@ -207,23 +207,23 @@ func ruleP18Format(p *Prog, r *Report) {
 		return out
 	}
 	for _, ret := range returnsOf(format) {
-		d := describe(format, ret.Results[0])
+		d := describe(format, retResult(ret, 0))
 		r.check(strings.Join(d, "+") == "s.seqs()+param:text+field:reset", rule, "Format", p.instrPos(ret), "Format(t) = seqs() + t + reset", "Format(t) is not seqs() + t + reset: "+strings.Join(d, "+"))
 	}
 	for _, ret := range returnsOf(far) {
-		d := describe(far, ret.Results[0])
+		d := describe(far, retResult(ret, 0))
 		r.check(strings.Join(d, "+") == "s.Format()+previousStyle.seqs()" || strings.Join(d, "+") == "s.Format()+"+far.Params[2].Name()+".seqs()", rule, "FormatAndRestore", p.instrPos(ret), "FormatAndRestore(t, p) = Format(t) + p.seqs()", "FormatAndRestore is not Format(t) + previous.seqs(): "+strings.Join(d, "+"))
 		// Format is applied to the text parameter
 		if c, _ := callOf(func() ssa.Value {
 			var leaves []ssa.Value
-			concatLeaves(ret.Results[0], &leaves, 0)
+			concatLeaves(retResult(ret, 0), &leaves, 0)
 			return leaves[0]
 		}()); c != nil && len(c.Common().Args) == 2 {
 			r.check(strip(c.Common().Args[1]) == ssa.Value(far.Params[1]), rule, "FormatAndRestore:text", p.instrPos(ret), "the text given is what gets formatted", "FormatAndRestore does not format the text it is given")
 		}
 	}
 	for _, ret := range returnsOf(seqs) {
-		d := describe(seqs, ret.Results[0])
+		d := describe(seqs, retResult(ret, 0))
 		ok := len(d) > 0
 		for _, x := range d {
 			if !strings.HasPrefix(x, "field:") && !strings.HasPrefix(x, "table:") {
@@ -258,7 +258,7 @@ func ruleP18Format(p *Prog, r *Report) {
 		if cl != nil {
 			ok = true
 			for _, ret := range returnsOf(cl) {
-				c, _ := callOf(ret.Results[0])
+				c, _ := callOf(retResult(ret, 0))
 				if c == nil || staticCallee(c) == nil || fnBase(staticCallee(c)) != "FormatAndRestore" || strip(c.Common().Args[1]) != ssa.Value(cl.Params[0]) {
 					ok = false
 				}
@@ -267,7 +267,7 @@ func ruleP18Format(p *Prog, r *Report) {
 		r.check(ok, rule, "Summary:tags", p.pos(sum.Pos()), "each tag is replaced by a styled copy of the match itself", "the summary serialiser does not replace each tag match by FormatAndRestore(the match, ...)")
 		// and the whole is Format(text) of the summary text
 		for _, ret := range returnsOf(sum) {
-			c, _ := callOf(ret.Results[0])
+			c, _ := callOf(retResult(ret, 0))
 			r.check(c != nil && staticCallee(c) != nil && fnBase(staticCallee(c)) == "Format", rule, "Summary:format", p.instrPos(ret), "the summary is the formatted text", "the summary is not Format(text)")
 		}
 	}
@@ -411,10 +411,10 @@ func ruleP18NoStyleApplied(p *Prog, r *Report) {
 	okTheme := false
 	if cl != nil {
 		for _, ret := range returnsOf(cl) {
-			c, _ := callOf(ret.Results[0])
+			c, _ := callOf(retResult(ret, 0))
 			if c != nil && staticCallee(c) != nil && fnBase(staticCallee(c)) == "NewStyler" {
 				if s, isS := constString(c.Common().Args[0]); isS && s == "no_colour" {
-					okTheme = strip(ret.Results[1]) == ssa.Value(cl.Params[1])
+					okTheme = strip(retResult(ret, 1)) == ssa.Value(cl.Params[1])
 				}
 			}
 		}
